@@ -4,5 +4,7 @@ CONSTANTS
   VALS = {"A"}
   MaxOps = 4
   MaxArm = 1
+  MaxRArm = 0
+  EmptySkip = TRUE
   AgeReset = FALSE
 INVARIANT NotStranded
